@@ -389,7 +389,22 @@ func (g *c12Gen) block(d int) jast.Node {
 	n := r.Range(1, 4)
 	savedF := g.fns
 	for i := 0; i < n; i++ {
-		switch r.Intn(6) {
+		switch r.Intn(7) {
+		case 6:
+			// an inner block whose only assignment is nested in a conditional, an
+			// array or an argument: still the inner block's binding, gone afterwards
+			g.tags["assign-nested-in-an-inner-block"] = true
+			as := &jast.Assign{Name: c12Vars[r.Intn(len(c12Vars))], Val: g.num(d + 1)}
+			var inner jast.Node
+			switch r.Intn(3) {
+			case 0:
+				inner = &jast.Cond{If: &jast.Bool{V: true}, Then: as, Else: &jast.Num{V: 0}}
+			case 1:
+				inner = &jast.Array{Items: []jast.Node{as}}
+			default:
+				inner = call("count", as)
+			}
+			b.Exprs = append(b.Exprs, &jast.Block{Exprs: []jast.Node{inner}})
 		case 0, 1, 2:
 			g.tags["assign"] = true
 			b.Exprs = append(b.Exprs, &jast.Assign{Name: c12Vars[r.Intn(len(c12Vars))], Val: g.num(d + 1)})
